@@ -15,13 +15,15 @@ META = {
             "error and gets the grammar's tree, i.e. operators are associated as the manual dictates (expr_complete, "
             "expr_complete_rest, chunk_complete: a 63-rule mutual induction); every numeral and every short string with any escapes "
             "is one token with no lexer error and passes the checker's literal validation (number_complete, string_escape_complete); "
+            "every long bracket of any level (string or comment: it ends at the FIRST closing bracket of its level, closers of other levels are content) "
+            "is one token with no error (long_string_complete, long_comment_complete; a lexer that also swallows the ']' after a wrong-level "
+            "closer rejects `[=[a]]=]`, long_greedy_refuted); "
             "the two defects found and repaired stay visible as refutations of the OLD predicates (string_escape_old_refuted, "
             "string_z_vtab_refuted). TIE: programs generated from the grammar (valid by construction), their single-token mutants and "
             "generated/mutated literals: token kinds, acceptance, the whole syntax tree, the nesting level and the literal "
             "observations of the implementation must equal the models'. SEARCH: the same generator through the real parser and the "
             "real diagnose_file (syntax-error diagnostics) at the four levels. NOT proved: soundness (accepted => derivable; the "
-            "implementation is deliberately lenient), name-level rules of the reference compiler (break/goto/attribs/vararg), long "
-            "brackets and comments (exercised by tie and search only).",
+            "implementation is deliberately lenient), name-level rules of the reference compiler (break/goto/attribs/vararg).",
     "note": "Trusted: Coq kernel; the grammar of coq/theories/C03/Spec.v and LexSpec.v as a rendering of the reference manual; "
             "the hand transcriptions Model.v / LexModel.v (tied by correspondence); models of Rust std parse::<i64>/<f64>/from_str_radix "
             "(LexModel.v, T1-T7); the translator lib/c03_translate.py. luars was not used as an oracle. Axioms: none.",
@@ -34,7 +36,8 @@ PRELUDE = "From Coq Require Import List Bool NArith.\nImport ListNotations.\n"
 
 THEOREMS = [("ops_table_matches_manual", "table"), ("expr_complete", "theorem"), ("expr_complete_rest", "theorem"),
             ("chunk_complete", "theorem"), ("lexical_constants", "table"), ("number_complete", "theorem"),
-            ("string_escape_complete", "theorem"), ("string_escape_old_refuted", "refutation"),
+            ("string_escape_complete", "theorem"), ("long_string_complete", "theorem"), ("long_comment_complete", "theorem"),
+            ("long_greedy_refuted", "refutation"), ("string_escape_old_refuted", "refutation"),
             ("string_z_vtab_refuted", "refutation"), ("precedence_example", "example"), ("derivation_example", "example")]
 
 TRUSTED = [
@@ -78,6 +81,7 @@ def correspondence(ck, binpath, n):
     progs = [r for r in recs if r["k"] == "prog"]
     muts = [r for r in recs if r["k"] == "mut"]
     lexs = [r for r in recs if r["k"] == "lex"]
+    longs = [r for r in recs if r["k"] == "long"]
 
     def case_term(r, with_tree):
         tree = "None"
@@ -95,6 +99,16 @@ def correspondence(ck, binpath, n):
         "true" if r["lex_err"] else "false", "true" if r["chk_err"] else "false") for r in lexs]
     f3 = ck.coq_failing("lex", lex_terms, ["EV.C03.LexCorr", "EV.C03.Corr"], check_fn="EV.C03.Corr.check_lex_case_gen",
                         case_type="EV.C03.LexCorr.lex_case", per_shard=80, timeout=1800, prelude=PRELUDE)
+    long_terms = ["{| lg_text := %s; lg_obs_kind := %d; lg_obs_len := %d; lg_obs_err := %s |}" % (
+        coq_list([str(x) for x in r["text"]]), r["kind"], r["len"], "true" if r["err"] else "false") for r in longs]
+    f4 = ck.coq_failing("long", long_terms, ["EV.C03.LongCorr"], check_fn="EV.C03.LongCorr.check_long_case",
+                        case_type="EV.C03.LongCorr.long_case", per_shard=80, timeout=1800, prelude=PRELUDE)
+    for i in (f4 or [])[:4]:
+        r = longs[i]
+        ck.tie_broken("model/implementation disagreement on the long bracket %r: observed kind %s len %s err %s" % (
+            "".join(chr(x) for x in r["text"]), r["kind"], r["len"], r["err"]), json.dumps(r)[:2000])
+    for r in longs:
+        ck.count_case(("long", tuple(r["text"])), nontrivial=len(r["text"]) >= 4)
     for f, rs, what in ((f1, progs, "generated program (acceptance, tree, nesting level)"), (f2, muts, "single-token mutant (acceptance)")):
         for i in (f or [])[:4]:
             r = rs[i]
@@ -117,6 +131,8 @@ def correspondence(ck, binpath, n):
     d["corr_mutants_rejected_by_impl"] = sum(1 for r in muts if r["errs"])
     d["corr_literals"] = len(lexs)
     d["corr_literals_with_error"] = sum(1 for r in lexs if r["lex_err"] or r["chk_err"])
+    d["corr_long_brackets"] = len(longs)
+    d["corr_long_brackets_with_error"] = sum(1 for r in longs if r["err"])
     d["corr_tokens"] = sum(len(r["toks"]) for r in progs)
     if progs:
         r = progs[min(len(progs) - 1, 7)]
@@ -185,10 +201,10 @@ def main(argv):
         trusted_base=TRUSTED,
         rule="programs are generated from the grammar of Spec.v (every statement and expression form, operators unparenthesised so that "
              "precedence matters, all numeral forms incl. hex floats and integers beyond 2^63, every escape incl. \\z \\x \\u{..} \\ddd and "
-             "line continuations, long brackets of levels 0-3, comments of all forms, shebang, attribs at 5.4, goto/labels at 5.2+, `...` at "
+             "line continuations, long brackets of levels 0-3 whose content contains and ENDS with `]`, `]]`, `]=`, `]==`, `]=]`, `[=[` right before the closer, comments of all forms incl. such long comments, shebang, attribs at 5.4, goto/labels at 5.2+, `...` at "
              "chunk level) at levels 5.1/5.2/5.3/5.4; search oracle: zero parser errors AND zero syntax-error diagnostics of diagnose_file; "
              "tie: per program token kinds + acceptance + whole tree + nesting level, per single-token mutant acceptance, per literal "
-             "(valid or mutated) kind/length/lexer error/checker error. non-trivial = at least 4 tokens; distinct by token-kind sequence and level",
+             "(valid or mutated numeral, short string, long bracket/comment) kind/length/lexer error/checker error. non-trivial = at least 4 tokens; distinct by token-kind sequence and level",
         assumptions=["nesting of generated programs stays far below 200 levels", "the generator respects the name-level rules of the reference compiler "
                      "(break in loops, labels visible and unique, one <close> per statement, `...` only in vararg functions)",
                      "correspondence and search are sampled; the theorems carry the all-derivations claims"])
